@@ -18,6 +18,8 @@ type zzC15 struct {
 	p1, p2        *corev1.Pod
 	npA, npB      *netv1.NetworkPolicy // two variants under one name
 	anpX, anpY    *apisv1a.AdminNetworkPolicy
+	anpZ          *apisv1a.AdminNetworkPolicy
+	curZ          bool
 	banp          *apisv1a.BaselineAdminNetworkPolicy
 	// ghost state: what is currently in the engine
 	curNs   *corev1.Namespace
@@ -57,19 +59,21 @@ func zzNewC15() *zzC15 {
 		Ingress: []netv1.NetworkPolicyIngressRule{{From: []netv1.NetworkPolicyPeer{{NamespaceSelector: zzSel("env", "prod")}},
 			Ports: []netv1.NetworkPolicyPort{zzPortRange(corev1.ProtocolTCP, pb, eb)}}},
 	}).NetworkPolicy
-	px, py := zzPrio("x.prio"), zzPrio("y.prio")
-	vf_Assume(px != py)
+	px, py, pz := zzPrio("x.prio"), zzPrio("y.prio"), zzPrio("z.prio")
+	vf_Assume(vf_And(px != py, px != pz, py != pz))
+	u.anpZ = zzSimpleANP("z", pz).AdminNetworkPolicy
+	u.anpZ.Spec.Ingress[0].Action = apisv1a.AdminNetworkPolicyRuleActionDeny // all ports
 	u.anpX = zzSimpleANP("x", px).AdminNetworkPolicy
 	u.anpX.Spec.Ingress = zzAdmAllRule(apisv1a.AdminNetworkPolicyRuleActionDeny, "x")
 	u.anpY = zzSimpleANP("y", py).AdminNetworkPolicy
-	u.anpY.Spec.Ingress = zzAdmAllRule(apisv1a.AdminNetworkPolicyRuleActionAllow, "y")
+	// y: Allow on all ports (zzSimpleANP)
 	g := &zzGen{W: &zzWorld{}, Book: &zzCidrBook{}}
 	u.banp = g.zzGenBANPx(true, 1, 1, 1, 1)
 	u.banp.Spec.Ingress[0].Action = apisv1a.BaselineAdminNetworkPolicyRuleActionDeny
 	return u
 }
 
-const zzC15NumOps = 17
+const zzC15NumOps = 19
 
 // apply performs operation k on the engine and, if it succeeded, on the ghost state
 func (u *zzC15) apply(pe *PolicyEngine, k int) {
@@ -141,6 +145,14 @@ func (u *zzC15) apply(pe *PolicyEngine, k int) {
 		}
 	case 16:
 		_, _ = pe.CheckIfAllowed("ns1/p2", "ns1/p1", "TCP", "80")
+	case 17:
+		if err = pe.InsertObject(u.anpZ); err == nil {
+			u.curZ = true
+		}
+	case 18:
+		if err = pe.DeleteObject(u.anpZ); err == nil {
+			u.curZ = false
+		}
 	}
 }
 
@@ -165,6 +177,9 @@ func (u *zzC15) objects() []parser.K8sObject {
 	if u.curY {
 		objs = append(objs, parser.K8sObject{Kind: parser.AdminNetworkPolicy, AdminNetworkPolicy: u.anpY})
 	}
+	if u.curZ {
+		objs = append(objs, parser.K8sObject{Kind: parser.AdminNetworkPolicy, AdminNetworkPolicy: u.anpZ})
+	}
 	if u.curBANP {
 		objs = append(objs, parser.K8sObject{Kind: parser.BaselineAdminNetworkPolicy, BaselineAdminNetworkPolicy: u.banp})
 	}
@@ -178,23 +193,32 @@ var _ runtime.Object = (*corev1.Pod)(nil)
 func ZZ_C15_History() {
 	u := zzNewC15()
 	pe := NewPolicyEngine()
-	// base state: namespace and both pods present, one query already cached
+	// base state: namespace and both pods present; optionally a NetworkPolicy variant and the three ANPs
 	u.apply(pe, 0)
 	u.apply(pe, 3)
 	u.apply(pe, 5)
+	switch vf_Choose("base.np", 3) {
+	case 1:
+		u.apply(pe, 7)
+	case 2:
+		u.apply(pe, 8)
+	}
+	if vf_Choose("base.anps", 2) == 1 {
+		u.apply(pe, 10)
+		u.apply(pe, 12)
+		u.apply(pe, 17)
+	}
 	L := 2
 	if vf_Tier() > 0 {
 		L = 3
 	}
-	if vf_Choose("warm", 2) == 1 {
-		u.apply(pe, 16)
-	}
+	u.apply(pe, 16) // one query already cached
 	var trace string
 	for i := 0; i < L; i++ {
 		k := vf_Choose(fmt.Sprintf("op%d", i), zzC15NumOps)
 		trace += fmt.Sprintf("%d,", k)
 		u.apply(pe, k)
-		if vf_Choose(fmt.Sprintf("q%d", i), 2) == 1 {
+		if i == 0 && vf_Choose("q0", 2) == 1 {
 			u.apply(pe, 16)
 		}
 	}
